@@ -6,7 +6,7 @@ NAME = "Fungible"
 
 
 def _mc(flavour, regime="S", bug="", depth=3, tdepth=3, every=40, tevery=8, thin=False, **over):
-    c = dict(ThinBlock=thin, Flavour=flavour, MAXI=1000, Cap=3, Amts={0, 1, 2}, MintAmts={1, 2}, ApprAmts={0, 2},
+    c = dict(ThinBlock=thin, Flavour=flavour, MAXI=1000, Cap=3, CapAmts={0, 1, 2, 4}, Amts={0, 1, 2}, MintAmts={1, 2}, ApprAmts={0, 2},
              DUs={0, 2, 19, 20}, WithNeg=True, MinTempTtl=1, MaxTtl=20, Now0=10, Depth=depth,
              EmitEvery=every, BUG=bug)
     if regime == "O":
@@ -40,18 +40,21 @@ MODEL = dict(
         _mc("pausable", depth=4, tdepth=4, every=60, tevery=6),
         _mc("capped", depth=3, tdepth=4, every=1, tevery=6),
         _mc("capped", regime="O", depth=4, tdepth=5, every=2, tevery=10),
+        # the cap lowered / raised after minting (set_cap + burnable; no example exposes it): thin contract
+        _mc("capped", depth=4, tdepth=5, every=12, tevery=60, thin=True),
         # vacuity guards: seeded model bugs must be seen by the monitors
         _mc("base", bug="self_transfer"),
         _mc("allowlist", bug="burn_not_listed"),
         _mc("blocklist", bug="burn_not_listed", thin=True),
         _mc("pausable", bug="burn_not_pausable"),
         _mc("capped", bug="cap_off_by_one"),
+        _mc("capped", bug="cap_headroom", thin=True, depth=4),
         _mc("base", bug="no_burn_event"),
     ],
     quick=dict(sample=6000, drive_runs=480, drive_len=40),
     thorough=dict(sample=None, drive_runs=16000, drive_len=60, tlc_timeout=3000),
     need=[(o, r) for o in ("mint", "transfer", "transfer_from", "approve", "burn", "burn_from", "pause", "unpause",
-                           "list", "unlist") for r in ("ok", "fail")],
+                           "list", "unlist") for r in ("ok", "fail")] + [("set_cap", "ok"), ("set_cap", "fail")],
     selftest=[
         lambda ev: set_field(ev, ["obs", "supply"], ev["obs"]["supply"] + 1),
         lambda ev: set_field(ev, ["obs", "bal", "a"], ev["obs"]["bal"]["a"] + 1) if ev["res"] == "fail" else None,
